@@ -5,6 +5,7 @@ package index
 import (
 	"context"
 
+	"github.com/grafana/regexp"
 	"github.com/sourcegraph/zoekt"
 	"github.com/sourcegraph/zoekt/internal/tenant/systemtenant"
 	"github.com/sourcegraph/zoekt/internal/tenant/tenanttest"
@@ -61,11 +62,23 @@ func verifC23Query(k int) query.Q {
 		return &query.Branch{Pattern: "main"}
 	case 5:
 		return query.NewOr(&query.RepoSet{Set: map[string]bool{"r1": true}}, &query.Substring{Pattern: "a.go", FileName: true})
+	case 6:
+		return query.NewRepoIDs(1, 2, 3)
+	case 7:
+		return &query.Repo{Regexp: regexp.MustCompile("r[123]")}
+	case 8:
+		return query.NewSingleBranchesRepos("main", 1, 2, 3)
+	case 9:
+		// what the sharded searcher's typeRepoSearcher hands a shard for type:repo (it rewrites the
+		// atom into a RepoSet built from List; indexData.newMatchTree itself rejects TypeRepo)
+		return query.NewAnd(&query.RepoSet{Set: map[string]bool{"r1": true, "r2": true, "r3": true}}, &query.Substring{Pattern: "needle", FileName: true})
+	case 10:
+		return &query.Type{Type: query.TypeFileName, Child: &query.Substring{Pattern: "needle"}}
 	}
 	return &query.Const{Value: false}
 }
 
-const verifC23Queries = 6
+const verifC23Queries = 11
 
 // H_C23_search: a tenant's search result names only that tenant's repositories, in the files
 // and in the per-repository URL / line-fragment template maps.
